@@ -826,7 +826,7 @@ func staticAddr(v ssa.Value) (root types.Type, path []int, space string, ok bool
 // envAt builds the specification environment for a program point (block b, before instruction idx).
 func (br *bodyRun) envAt(b *ssa.BasicBlock, idx int, st *State, phiOv map[*ssa.Phi]Val) *SpecEnv {
 	fc := br.fc
-	env := &SpecEnv{fc: fc, st: st, old: fc.pre, pkg: br.fn.Pkg.Pkg, vars: map[string]TV{}}
+	env := &SpecEnv{fc: fc, st: st, old: fc.pre, pkg: br.fn.Pkg.Pkg, vars: map[string]TV{}, alias: fc.eng.aliasFor(br.fn)}
 	env.resolve = func(name string) (TV, bool) {
 		if tv, ok := br.resolveAt(b, idx, name, st, phiOv); ok {
 			return tv, true
@@ -1412,6 +1412,9 @@ func (fc *FnCtx) oblige(st *State, goal, name, kind string, pos token.Pos, desc 
 	}
 	// light mode: only assertions, effect preconditions and the loop invariants the contract
 	// itself supplies (they are assumed at the loop head, so they must be proved) are obligations
+	if fc.quiet > 0 && !contractDerived(kind) {
+		return
+	}
 	// (postconditions of a light contract are assumed by its callers, so they are proved too)
 	if fc.light && (kind != "pre-of" && kind != "assert" && kind != "inv-entry" && kind != "inv-keep" && kind != "post" || strings.HasSuffix(name, "receiver-non-nil")) {
 		return
